@@ -1,6 +1,7 @@
 import Okane.Drv.IOUtil
 import Okane.Drv.DecodeSyntax
 import Okane.Spec.Import
+import Okane.Drv.Viseca
 /-!
 Driver for C15.
 
@@ -12,6 +13,7 @@ Driver for C15.
    where the tree is in the format of harness/src/tree.rs, `clean` is `CleanText` of the record and
    `readable` is `ReadableTree` of the tree.
 `drv c15 readable` — line: a `<txn-tree>` → `readable=0|1` (`ReadableTree` evaluated on a tree the real importer built).
+`drv c15 viseca` — the Viseca statement model on the lines of a statement (`Drv/Viseca.lean`).
 -/
 namespace Okane.Drv.C15
 open Okane Okane.Import Okane.Drv Sexp
@@ -84,6 +86,7 @@ def main (args : List String) : IO Unit :=
   match args with
   | "txn" :: _ => forEachLine txnStep
   | "readable" :: _ => forEachLine readableStep
+  | "viseca" :: _ => Okane.Drv.Viseca.main
   | _ => forEachLine fun _ => "(bad-mode)"
 
 end Okane.Drv.C15
